@@ -33,3 +33,12 @@ func TestSQLProfileTypeChecks(t *testing.T) {
 		}
 	})
 }
+
+func TestRoutesProfileTypeChecks(t *testing.T) {
+	rapid.Check(t, func(rt *rapid.T) {
+		rs := synth.GenRoutes(rt, &synth.RouteOpts{})
+		if _, err := fastload.Load(rs.Spec()); err != nil {
+			rt.Fatalf("does not type-check: %v\n%s", err, rs.Text())
+		}
+	})
+}
